@@ -9,10 +9,14 @@ NA_REASONS = {}
 nap = os.path.join(VERIF, "not_applicable.json")
 if os.path.exists(nap):
     NA_REASONS = json.load(open(nap))
+READY = set()
+rp = os.path.join(VERIF, "checks", "ready.txt")
+if os.path.exists(rp):
+    READY = {l.strip() for l in open(rp) if l.strip() and not l.startswith("#")}
 for p in props:
     pid = p["id"]
     path = os.path.join(VERIF, "checks", pid.lower() + ".py")
-    if not os.path.exists(path):
+    if not os.path.exists(path) or pid not in READY:
         na.append({"property_id": pid, "reason": NA_REASONS.get(pid, "no check built yet for this property (work in progress); nothing is claimed for it")})
         continue
     spec = importlib.util.spec_from_file_location("c_" + pid, path)
